@@ -62,7 +62,7 @@ def tuplet_groups(q):
 
 class PartBuilder:
     def __init__(self, rng, pid, features, *, divs=None, n_measures=None, voice_base=0, max_alter=1,
-                 meters=None, staves=None, voices=None, part_name=None, skeleton=None):
+                 meters=None, staves=None, voices=None, part_name=None, skeleton=None, band_base=0):
         import partitura.score as S
         self.S = S
         self.rng = rng
@@ -70,6 +70,7 @@ class PartBuilder:
         self.pid = pid
         self.max_alter = max_alter
         self.voice_base = voice_base
+        self.band_base = band_base       # shifts the pitch bands (not the voice numbers): disjoint pitches across parts
         self.meters = meters or METERS
         self.skeleton = skeleton       # [(ts, length in quarters)] per measure: follow another part's bar structure
         rng_ = rng
@@ -178,7 +179,7 @@ class PartBuilder:
         return min(self.n_staves, 1 + (v - 1) * self.n_staves // self.n_voices)
 
     def band(self, v):
-        k = self.voice_base + (v - 1)
+        k = self.voice_base + self.band_base + (v - 1)
         lo = 30 + 6 * (k % 15)
         return lo, lo + 5
 
@@ -226,7 +227,7 @@ class PartBuilder:
             midis = rng.sample(range(lo, hi + 1), k)
             pitches = [spell(rng, m, self.max_alter) for m in sorted(midis)]
         if tied_in is None and "graces" in self.f and rng.random() < 0.15:
-            self.add_graces(t, v, staff, lo, hi)
+            self.add_graces(t, v, staff, lo, hi, exclude={NATURAL[s_] + (a_ or 0) + 12 * (o_ + 1) for s_, a_, o_ in pitches})
         notes = []
         for step, alter, octave in pitches:
             n = S.Note(step=step, octave=octave, alter=alter if alter != 0 or rng.random() < 0.5 else None,
@@ -256,13 +257,16 @@ class PartBuilder:
 
     grace_main = None
 
-    def add_graces(self, t, v, staff, lo, hi):
+    def add_graces(self, t, v, staff, lo, hi, exclude=()):
         S, rng, part = self.S, self.rng, self.part
-        k = rng.choice([1, 1, 2, 3])
+        # grace pitches differ from each other and from the notes they precede (no equal pitches sounding at once)
+        free = [m for m in range(lo, hi + 1) if m not in exclude]
+        k = min(rng.choice([1, 1, 2, 3]), len(free))
+        chosen = rng.sample(free, k)
         prev = None
         gtype = rng.choice(["acciaccatura", "appoggiatura", "grace"])
         for i in range(k):
-            step, alter, octave = spell(rng, rng.randint(lo, hi), self.max_alter)
+            step, alter, octave = spell(rng, chosen[i], self.max_alter)
             g = S.GraceNote(gtype, step, octave, alter, id=self.new_id("g"), voice=v + self.voice_base, staff=staff,
                             symbolic_duration={"type": "eighth", "dots": 0})
             part.add(g, t, t)
